@@ -132,5 +132,5 @@ def extra_checks_c03(res, tier, seed, known, log):
         path = runner.write_replay("C03", "finite.zero_cap_table", {"property": "C03", "obligation": "finite:zero_cap_table",
                                                                     "failing_input": (js.get("failures") or [r["stderr"][-500:]])[0]})
         res.violations.append({"replay": path})
-    runner.runtime_standin(res, "C03", "cnames", "renamer", seed, 2000 if tier == "quick" else 20000, 60 if tier == "quick" else 300, prefix="C03:",
-                           label="renamers leave sequence and qualities untouched for generated rename functions (bounded)")
+    runner.runtime_standin(res, "C03", "cnames", "renamer", seed, 2000 if tier == "quick" else 20000, 60 if tier == "quick" else 300, prefix="C03:", crosscheck=True,
+                           label="cross-check only (the claim is proved by the Renamer / PairedEndRenamer contracts): renamers leave sequence and qualities untouched")
